@@ -87,7 +87,17 @@ def run_evaluate(col):
     col.add("C18.O1", "FreeVibration.evaluate stiffness", "A == sum over items of (multiplier *) K resized to the global shape, rows and columns restricted to the free unknowns", not badK and A.shape == (len(dof1),) * 2, "%s: %s" % (w, badK[:4]))
     col.add("C18.O1", "FreeVibration.evaluate mass", "M == sum over items of the mass matrices resized alike and sliced with the same free unknowns", not badM and M.shape == (len(dof1),) * 2, "%s: %s" % (w, badM[:4]))
     col.add("C18.O1", "FreeVibration.evaluate solver arguments", "sigma and further keyword arguments are forwarded to the eigen-solver", is_zero(P(rec["sigma"]) - sym("sig")) and rec["kw"].get("k") == 3, str(rec["kw"]))
-    col.add("C18.O1", "FreeVibration.evaluate stores", "eigenvalues, eigenvectors and the free unknowns are stored on the job", it.getattr(job, "eigenvalues") is not None and np.array_equal(it.getattr(job, "dof1"), dof1))
+    # a second evaluation of the same job after the boundary dictionary changed: the new partition is used
+    dof0b = np.array([0, 1])
+    dof1b = np.array([i for i in range(n) if i not in (0, 1)])
+    it.call_hooks[("felupe.dof._tools", "partition")] = lambda interp, fn, args, kwargs: (dof0b, dof1b)
+    it.call_method(job, "evaluate", [], dict(solver=solver, k=3, sigma=sym("sig")))
+    A2 = micro.dense(rec["A"])
+    ok2 = A2.shape == (len(dof1b),) * 2 and np.array_equal(it.getattr(job, "dof1"), dof1b) and all(
+        is_zero(P(A2[a, b]) - (entry("Ka", i, j, n) + mlt * entry("Kb", i, j, 8) + 0 * entry("Kc", i, j, n))) for a, i in enumerate(dof1b) for b, j in enumerate(dof1b))
+    col.add("C18.O1", "FreeVibration.evaluate re-evaluated", "every evaluation partitions with the job's current boundary dictionary (no partition of an earlier evaluation is re-used)", ok2,
+            "%s: matrix shape %s for %d free unknowns" % (w, A2.shape, len(dof1b)))
+    col.add("C18.O1", "FreeVibration.evaluate stores", "eigenvalues, eigenvectors and the free unknowns are stored on the job", it.getattr(job, "eigenvalues") is not None and np.array_equal(it.getattr(job, "dof1"), dof1b))
     finish_info(col, it)
 
 
